@@ -45,11 +45,31 @@ def scripted(rng, with_read=None, mode=None):
 
 
 def branch(rng):
-    p = rng.choice([0, 1, 2, 3, 4, 5, 7, 9, 11, 15])
-    q = rng.choice([1, 1, 2, 3, 4])
-    neg = rng.random() < 0.4
-    nan = rng.random() < 0.1
+    """A value p/q (optionally negated, or NaN) compared by `?` or `!` with a count c.  The count and the operator are drawn
+    first, then the value by its position relative to the count: just below / just above by a proper fraction (for c = 0: a
+    value strictly between -1 and 0), equal, the neighbouring integers, far below zero, NaN, or anything."""
     op = rng.choice(["?", "?", "!"])
+    zero_form = op == "?" and rng.random() < 0.6
+    c = rng.choice([0, 0, 1, 2, 3, 5]) if zero_form else rng.choice([3, 4, 5, 6])
+    cls = rng.choice(["below-frac", "below-frac", "above-frac", "equal", "below-int", "above-int", "far-negative", "nan", "any", "any"])
+    nan = cls == "nan"
+    q = rng.choice([2, 3, 4])
+    if cls == "below-frac":
+        num = c * q - rng.choice([1, q - 1])
+    elif cls == "above-frac":
+        num = c * q + rng.choice([1, q - 1])
+    elif cls == "equal":
+        num, q = (c, 1) if rng.random() < 0.5 else (c * q, q)             # also as an unreduced fraction
+    elif cls == "below-int":
+        num, q = c - 1, 1
+    elif cls == "above-int":
+        num, q = c + 1, 1
+    elif cls == "far-negative":
+        num = -rng.choice([7, 9, 15])
+    else:
+        num = rng.choice([0, 1, 2, 3, 4, 5, 7, 9, 11, 15]) * rng.choice([1, 1, -1])
+        q = rng.choice([1, 1, 2, 3, 4])
+    p, neg = abs(num), num < 0
     prog = []
     if nan:
         prog += ["형.", "항......."]                                     # leave stack 3 empty: the pop yields NaN
@@ -57,15 +77,14 @@ def branch(rng):
         prog += ["형" + "." * p if p else "형", "형" + "." * q, "흡.......", "하앗..."]   # p, q -> 1/q (copy to stack 7) -> p/q
         if neg:
             prog.append("흣.......")                                     # negate in place (sum to stack 7)
-    lh, rh = rng.choice(ALL_HEARTS[1:] + [""] * 5), rng.choice(["♥", "♥", ""])     # left heart: branch taken, right heart: not taken
-    if op == "?" and rng.random() < 0.6:
+    # left heart: branch taken, right heart: not taken — at least one of them, or the branch would not be observable
+    lh, rh = rng.choice([(h, "♥") for h in ALL_HEARTS[1:]] + [(h, "") for h in ALL_HEARTS[1:4]] + [("", "♥")] * 3)
+    if zero_form:
         # 형 with c dots pushes the count c itself; `?(_, ?(L, R))`: the first ? pops that count (never below itself), the
         # second pops the value and compares it with c — any count, including 0
-        c = rng.choice([0, 0, 1, 2, 3, 5])
         prog.append("형" + "." * c + "?" + lh + "?" + rh)
     else:
         # 흑 with c dots: copy the value to stack c and select it; the area pops the copy and compares it with the count c
-        c = rng.choice([3, 4, 5, 6])
         prog.append("흑" + "." * c + lh + op + rh)
     prog += ["형" + "." * 66, "항."]
     return " ".join(prog)
